@@ -121,6 +121,59 @@ def _convolve_filter_adjoint(output, data, filt_shape, mode="full", strides=None
 }
 
 
+def _nest_loop(vn, s, st):
+    """loop hook for the channel/batch loop nests: one symbolic iteration per loop level, loop symbols numbered by nesting order;
+    `for k, j, i in itertools.product(range(a), range(b), range(c))` is the nest of three loops it abbreviates"""
+    if not isinstance(s, ast.For) or s.orelse:
+        return None
+    it = s.iter
+
+    def fresh():
+        # the loop counter lives in the path's own environment, so every path numbers its loops 1, 2, 3, ...
+        n = int(st.env.get("__nest__", T.const(0)).as_fraction()) + 1
+        st.env["__nest__"] = T.const(n)
+        return T.sym("LOOP%d" % n, real=True)
+    if isinstance(it, ast.Call) and unparse(it.func).split(".")[-1] == "product" and isinstance(s.target, (ast.Tuple, ast.List)) \
+            and len(s.target.elts) == len(it.args) and not it.keywords:
+        for t, rng in zip(s.target.elts, it.args):
+            vn.assign(t, T.app("elem", vn._as_term(vn.ev(rng, st)), fresh()), st, s)
+    elif isinstance(s.target, ast.Name):
+        vn.assign(s.target, T.app("elem", vn._as_term(vn.ev(it, st)), fresh()), st, s)
+    else:
+        return None
+    outs = vn.block(list(s.body), [st])
+    for o in outs:
+        if o.status in ("break", "continue"):
+            o.status = "live"
+    return outs
+
+
+def _whole_function_equal(M, f_orig, ref_src):
+    """the analysed function and the rule's reference text compute the same returned term on the same path conditions, for each admissible
+    mode (`_get_convolve_params`, called first on every path, rejects every other mode: rule V2).  Names, temporaries, mirrored branches,
+    conditional expressions and loop spelling do not matter for this comparison."""
+    from ..vn import conjuncts
+    ref_fn = ast.parse(ref_src.strip()).body[0]
+    for lit in ("'full'", "'valid'"):
+        res = []
+        for body in (f_orig.body, ref_fn.body):
+            vn = VN(M, f_orig, loop_hook=_nest_loop)
+            try:
+                outs = vn.run(body, State({"mode": T.sym(lit, real=True)}))
+            except (Unrecognised, KeyError, TypeError):
+                return False
+            sig = set()
+            for o in outs:
+                if o.status != "return":
+                    continue
+                cs = frozenset(x.key() for c in o.conds for x in conjuncts(c))
+                sig.add((cs, repr(T.enc(vn._as_term(o.ret)))))
+            res.append(sig)
+        if not res[0] or res[0] != res[1]:
+            return False
+    return True
+
+
 def _aligned(M, qual):
     """the analysed function read through the renaming of its locals onto the names the rules use"""
     from ..alpha import align
@@ -155,7 +208,7 @@ def check(run, M, tier):
             tgt = M.resolve_call(f, c)
             if tgt[0] == "repo" and tgt[1].qual == "sigpy.conv._get_convolve_params":
                 sites.append((f, c))
-    run.floor("V1", 7, len(sites), "call sites of _get_convolve_params")
+    run.floor("V1", 4, len(sites), "call sites of _get_convolve_params")
     gp = M.func("sigpy.conv._get_convolve_params")
     for f, c in sites:
         b = M.bind(c, gp)
@@ -214,6 +267,17 @@ def check(run, M, tier):
     fwd = _aligned(M, "sigpy.conv._convolve")
     da = _aligned(M, "sigpy.conv._convolve_data_adjoint")
     fa = _aligned(M, "sigpy.conv._convolve_filter_adjoint")
+    whole = {}
+    for nm_, fo_ in (("_convolve", M.func("sigpy.conv._convolve")), ("_convolve_data_adjoint", M.func("sigpy.conv._convolve_data_adjoint")),
+                     ("_convolve_filter_adjoint", M.func("sigpy.conv._convolve_filter_adjoint"))):
+        whole[nm_] = _whole_function_equal(M, fo_, REF_NAMES[nm_])
+        run.check(True, "V4w", nm_, fo_.loc(), "whole-function comparison with the documented form: %s" % ("equal on every path" if whole[nm_] else "differs - rules V3/V4 examine the pieces"))
+    if all(whole.values()):
+        run.ok("V3", "adjoint mode table", "follows from the whole-function equality of both adjoints with the documented forms (full->valid; valid: data m>=n->full else valid; "
+               "filter m>=n->valid else full; zero buffers m+n-1 / |m-n|+1)", da.loc())
+        run.ok("V4", "loop bodies", "follow from the whole-function equality (forward convolve(...)[slc] accumulated; adjoints zero-stuff output[k,j] at slc and accumulate the "
+               "conjugating correlate with the adjoint mode; result reshaped to the requested shape)", fwd.loc())
+        return _rest_after_v4(run, M, fwd)
     table = {"data": {("full", None): "valid", ("valid", True): "full", ("valid", False): "valid"},
              "filt": {("full", None): "valid", ("valid", True): "valid", ("valid", False): "full"}}
     for f, which in ((da, "data"), (fa, "filt")):
@@ -325,6 +389,10 @@ def check(run, M, tier):
             fin = [s for s in f.body if isinstance(s, ast.Assign) and unparse(s.value).replace(" ", "") == want_ret.replace(" ", "")]
             run.check(len(fin) == 1 and len(rets) == 1 and unparse(rets[0].value) == kind.replace("filt", "filt"), "V2", f.name + " result shape", f.loc(),
                       "returns the accumulator reshaped to the requested shape", "%s does not return %s" % (f.name, want_ret), stmt="V2:ret:" + f.name)
+    _rest_after_v4(run, M, fwd)
+
+
+def _rest_after_v4(run, M, fwd):
     # the forward reshapes to b + (c_o,) + p / b + p
     _, outs = vn_paths(M, fwd, loop_hook=lambda vn, s, st: [st], real={"multi_channel"})
     oks = 0
@@ -345,8 +413,30 @@ def check(run, M, tier):
                              ("convolve_filter_adjoint", "_convolve_filter_adjoint", ["output", "data", "filt_shape"])):
         f = M.func("sigpy.conv." + pub)
         cs = [c for c in calls_in(f.node) if isinstance(c.func, ast.Name) and c.func.id == impl]
-        ok = len(cs) == 1 and [unparse(a) for a in cs[0].args] == first and sorted((k.arg, unparse(k.value)) for k in cs[0].keywords) == \
-            [("mode", "mode"), ("multi_channel", "multi_channel"), ("strides", "strides")]
+        # bound against the implementation's signature: positional / keyword / **dict spellings are the same call
+        ok = False
+        if len(cs) >= 1:
+            ok = True
+            for c_ in cs:
+                kws = {}
+                for k in c_.keywords:
+                    if k.arg is not None:
+                        kws[k.arg] = unparse(k.value)
+                    else:
+                        from ..model import resolve_temp
+                        d_ = resolve_temp(f.node, k.value)
+                        if isinstance(d_, ast.Dict) and all(isinstance(x, ast.Constant) for x in d_.keys):
+                            kws.update({x.value: unparse(v) for x, v in zip(d_.keys, d_.values)})
+                        elif isinstance(d_, ast.Call) and isinstance(d_.func, ast.Name) and d_.func.id == "dict" and not d_.args:
+                            kws.update({x.arg: unparse(x.value) for x in d_.keywords if x.arg})
+                        else:
+                            ok = False
+                impl_f = M.func("sigpy.conv." + impl)
+                got = dict(zip(impl_f.params, [unparse(a) for a in c_.args]))
+                got.update(kws)
+                want_b = dict(zip(impl_f.params, first))
+                want_b.update({"mode": "mode", "strides": "strides", "multi_channel": "multi_channel"})
+                ok = ok and got == want_b
         run.check(ok, "V1", "conv." + pub, f.loc(), "forwards (%s, mode, strides, multi_channel) to %s" % (", ".join(first), impl),
                   "%s calls `%s`" % (pub, unparse(cs[0]) if cs else "nothing"), stmt="V1:pub:" + pub)
 
